@@ -69,6 +69,11 @@ claimed = {
          "Simple fonts: glyph counts {1,2,3,229,230,300} x four name sets (forcing charset formats 0/1/2 and SID/custom strings, 1- and 127-character names) x five encodings (standard, none, sparse, multiply encoded, all 256 codes) x three charstring payload sizes; INDEX bodies swept through 300 consecutive sizes around 255 (String, Name, CharStrings INDEX) and around 65535; full 256-code encodings in k ranges for k in {1,2,3,127,128,129,200,254,255}. CID-keyed fonts: all FDSelect functions on 5 glyphs -> 1..3 font dicts, 256 font dicts, three GID->CID maps, font matrices, supplements; all 5^4 width assignments over 2 private dicts. DICT numbers: integers at every size-class boundary +-1, reals incl. 1.23456789e-20 and -7.5e12 through BlueScale/StdHW/ItalicAngle/underline/FontMatrix. Read(Write(F)) is compared field by field; refcff walks the bytes (offsets monotone, minimal offSize, DICT operands, charset / encoding / FDSelect) and reft2 re-derives the widths.",
          "Domain: CIDs < 65536, encodings obey the documented contiguity rule, BlueScale in [0,1] and not within 1e-6 of the default, StdHW in [0,10000], italic angles within +-90 degrees.",
          "DESIGN.md 4/C13"),
+ "C08": ("model_checking",
+         "bounded exhaustive enumeration of coverage / class-definition / GDEF values and gtab.Info values; round trip compared up to nil == empty, sizes recomputed independently",
+         "coverage.Table/Set: all 2^10 subsets of 10 glyph ids at both ends of the 16-bit range (EncodeLen == emitted, indices in glyph order checked by an independent reader, smaller format chosen); classdef.Table: all 3^8 (quick) / 3^10 class maps; gdef.Table: 36 combinations; gtab.Info: every simple GSUB/GPOS lookup and every contextual form x pattern x action list x 11 flag combinations, alone and with further lookups, per-subtable encodeLen == len(encode) through an export seam; all assignments of subtable size classes {tiny, 20, 33, 66 KiB} over <= 2 (quick) / 4 lookups x 1..2 subtables (reordering / extension logic); lookup counts {0,1,2,255,256,300} x sizes, feature lists up to 10900 features, all subsets of a 6-tag script list with/without required features.",
+         "nil == empty; a nil and an all-zero value record are the same; nil LookupList/FeatureList mean 'absent' (empty lists are passed as non-nil); an encoder panic counts as a loud refusal; one known finding (subtable offset inside one lookup beyond 16 bits).",
+         "DESIGN.md 4/C08"),
 }
 checks = []
 na = []
